@@ -32,6 +32,9 @@ abs_buf_push_byte abs_buf_push_string abs_buf_push_word abs_buf_push_at pushat_e
 abs_buf_clear abs_buf_fill_all abs_buf_new_filled abs_buf_from_bytes abs_buf_slice no_oob_blit_decode no_oob_blit_dest abs_buf_blit_full
 no_oob_bitloc abs_buf_bit_set abs_buf_bit_clear abs_buf_bit_toggle abs_buf_bit_get bstep_abs buf_inv_reachable
 abs_new_filled abs_peek abs_clear_seq
+count_putKey_le pow2_step_bounded capacity_pow2_reachable capacity_pow2_run
+struct_inv_of_check struct_rawget_spec struct_get_spec struct_get_depth_cutoff struct_proto_irrelevant struct_next_visits_each_key_once
+struct_to_table_spec to_struct_certified thaw_freeze_same_map table_rawget_ignores_proto
 """.split()
 ENV = dict(os.environ, ASAN_OPTIONS="detect_leaks=0:abort_on_error=0:allocator_may_return_null=1", UBSAN_OPTIONS="print_stacktrace=1")
 NT, NS, NA, NB = 4, 2, 3, 3
@@ -43,9 +46,11 @@ I32MAX = 2**31 - 1
 # ----------------------------------------------------------------------------------------------------------------------
 # history generators
 class Gen:
-    def __init__(self, rng, pool):
+    def __init__(self, rng, pool, kinds=None):
         self.r = rng
         self.pool = pool            # list of (idx, hash)
+        # keys that `thaw` maps to themselves: numbers, keywords, symbols, booleans (strings thaw to buffers, tuples to arrays)
+        self.thawable = set(i for i, k in (kinds or {}).items() if k in (0, 1, 3, 4, 6))
         self.by_home = {}
         for i, h in pool:
             self.by_home.setdefault(h & 1023, []).append(i)
@@ -65,6 +70,8 @@ class Gen:
         if r.chance(1, 4):
             cand += [0, 1]
         cand = sorted(set(cand))
+        if self.thawable and r.chance(1, 3):
+            cand = [c for c in cand if c in self.thawable] or cand
         r.shuffle(cand)
         if size >= len(cand) and r.chance(1, 2):
             extra = [i for i, _ in self.pool]
@@ -184,9 +191,22 @@ class Gen:
                 d = T()
                 ops.append("totable %s %s" % (S(), d))
                 newobj(d)
-            elif x < 905:
+            elif x < 899:
                 ops.append("tnew %s %d" % (t, r.choice([0, 0, 1, 2, 3, 4, 7, 8, 9, 16, 31, 33, 100, 600])))
                 newobj(t)
+            elif x < 905:
+                y = r.below(10)
+                if y < 3:
+                    # weak tables share janet_table_init_impl / put / rehash with ordinary ones (keys are rooted, values immediate)
+                    ops.append("tnewweak %s %s %d" % (t, r.choice(["0", "1", "3", "8", "33", "-1", "nil"]), r.range(1, 3)))
+                    newobj(t)
+                elif y < 7:
+                    if not cyclic(t):       # freeze recurses along the prototype chain
+                        ops.append("freeze %s %s" % (t, S()))
+                elif all(k in self.thawable for k in ws) and not big:
+                    d = T()
+                    ops.append("thaw %s %s" % (t, d))
+                    newobj(d)
             elif x < 915:
                 if not cyclic(t) or r.chance(1, 3):      # a cyclic chain must be cut off like `get` does, not loop for ever
                     d = T()
@@ -703,6 +723,28 @@ class Oracle:
                 exp = "ok"
             elif name == "tnew":
                 self.T[int(x[1:])] = Obj()
+                exp = "ok"
+            elif name == "tnewweak":
+                c = as_i32(t[2])
+                if c is None or c < 0:
+                    exp = "err"
+                else:
+                    self.T[int(x[1:])] = Obj()
+                    exp = "ok"
+            elif name == "freeze":
+                # documented: deep immutable copy; same entries, the prototype chain frozen as well
+                def frz(ob, lim=300):
+                    return None if ob is None or lim == 0 else Obj(ob.d, frz(ob.proto, lim - 1))
+                self.S[int(t[2][1:])] = frz(o)
+                exp = "ok"
+            elif name == "thaw":
+                d, cur, lim = {}, o, 200
+                while cur is not None and lim:
+                    for k, v in cur.d.items():
+                        d.setdefault(k, v)
+                    cur = cur.proto
+                    lim -= 1
+                self.T[int(t[2][1:])] = Obj(d, None)
                 exp = "ok"
             elif name == "flatten":
                 d, cur, lim = {}, o, 200
@@ -1259,7 +1301,9 @@ def run(ctx, only_ops=None):
                                "buffer, got rc=%s stdout=%r %s" % (bo.get("rc"), bo.get("stdout"), (bo.get("stderr") or "").strip().splitlines()[:1]))
     keys, _, _ = run_impl(hx, [], per_home=per_home)
     pool = [(int(l.split()[1]), int(l.split()[2])) for l in keys if l.startswith("key ")]
-    g = Gen(ctx.rng, pool)
+    rck, kout, _ = run_cmd([hx, "--per-home=%d" % per_home, "--kinds"], timeout=300, env=ENV)
+    kinds = {int(l.split()[1]): int(l.split()[2]) for l in kout.decode(errors="replace").splitlines() if l.startswith("kind ")}
+    g = Gen(ctx.rng, pool, kinds)
     hists = []      # (label, ops)
     for name, ops in corpus_histories():
         hists.append(("corpus:" + name, ops))
